@@ -1,0 +1,39 @@
+//go:build verif
+
+package cocafile
+
+// Contracts checked by /verif (vcgo). Comment-only: no executable code.
+// C01: which files of a tree are analysed: every .java file that is not a test file; test files, ignored files and
+// other files contribute nothing; the walk is never cut short.
+
+//@ spec IsTestFile(p string) bool := HasSuffix(p, "Test.java") || HasSuffix(p, "Tests.java") || Contains(p, "src/test/java/")
+
+// isJavaTestFile
+//@ closure init$1
+//@ ensures result <==> (HasSuffix(path, "Test.java") || HasSuffix(path, "Tests.java"))
+
+// isJavaTestPackage
+//@ closure init$2
+//@ ensures result <==> Contains(path, "src/test/java/")
+
+// JavaTestFileFilter
+//@ closure init$3
+//@ ensures result <==> IsTestFile(path)
+
+// JavaCodeFileFilter
+//@ closure init$4
+//@ ensures result <==> (HasSuffix(path, ".java") && !IsTestFile(path))
+
+// JavaFileFilter
+//@ closure init$5
+//@ ensures result <==> HasSuffix(path, ".java")
+
+// the walk callback: the walk always continues (nil, never SkipDir: an ignored file must not hide its siblings);
+// the path is collected only if the filter accepts it, at most once, and never from a testData tree
+//@ closure GetFilesWithFilter$1
+//@ modifies *files
+//@ ensures result == nil
+//@ ensures !filter(path) ==> *files == old(*files)
+//@ ensures Contains(path, "testData") ==> *files == old(*files)
+//@ ensures *files == old(*files) || (len(*files) == old(len(*files)) + 1 && Extends(*files, old(*files), 1) && (*files)[len(*files) - 1] == path)
+//@ ensures gitIgnore == nil && filter(path) && !Contains(path, "testData") ==> len(*files) == old(len(*files)) + 1
